@@ -772,8 +772,8 @@ pub fn worker(ctx: &WorkerCtx) -> Report {
         let grouping = *r.pick(&[Grouping::Never, Grouping::Random(4), Grouping::Always]);
         let delays = r.chance(1, 2);
         let seed = r.next_u64();
-        // half of the rounds leave the key-to-set map alone: the known finding C09-F1 ends a
-        // round at its first stale set read, which would otherwise starve the single-value map
+        // half of the rounds leave the key-to-set map alone (a stale set read ends a round at
+        // its first detection, which would otherwise starve the single-value map)
         let sets = i % 2 == 0;
         let case = format!("C09 parallel round {i} cap={cap} workers={workers} keys={keys} readers={readers} ops={ops} grouping={grouping:?} delays={delays} maps={}", if sets { "single+set" } else { "single" });
         ctx.announce(&case);
